@@ -122,7 +122,11 @@ impl<Front: SocketHandler> ExpectProxyProtocol<Front> {
     }
 
     fn close_on_bad_length(&mut self, reason: &str) -> SessionResult {
-        error!("{} proxy protocol header {}, closing", log_context!(self), reason);
+        error!(
+            "{} proxy protocol header {}, closing",
+            log_context!(self),
+            reason
+        );
         incr!(names::proxy_protocol::ERRORS);
         self.frontend_readiness.reset();
         SessionResult::Close
